@@ -35,6 +35,7 @@ type parseCase struct {
 	ErrorPage string `json:"error_page,omitempty"`
 	Siblings  bool   `json:"siblings,omitempty"` // sound files that sort before and after the others
 	Ext       string `json:"ext,omitempty"`      // template extension (default .tw)
+	Sub       string `json:"sub,omitempty"`      // directory of the page inside the template directory ("" or "name/")
 }
 
 func (cs *parseCase) UnmarshalJSON(b []byte) error {
@@ -515,7 +516,7 @@ func c08Tree(c *harness.Check, cs parseCase, _ bool) string {
 	}
 	switch cs.As {
 	case "page":
-		tr["t/page"+x] = tree.Entry{Content: cs.Src}
+		tr["t/"+cs.Sub+"page"+x] = tree.Entry{Content: cs.Src}
 	case "layout":
 		tr["t/page"+x] = tree.Entry{Content: `@use("lay")@insert("r1", "x")`}
 		tr["t/lay"+x] = tree.Entry{Content: cs.Src}
@@ -549,6 +550,15 @@ func c08Tree(c *harness.Check, cs parseCase, _ bool) string {
 		}
 		if cs.MustReject && err == nil {
 			failure = "loaded without error: " + cs.Why
+			return
+		}
+		if err != nil {
+			// an error of a load carries a line number and names a file of the directory
+			// (the file may be one the source refers to and that does not exist: only its place is checked)
+			_, p, ok := errLine(err.Error())
+			if !ok || p != "" && !strings.Contains(p, "/t/") {
+				failure = fmt.Sprintf("the load error carries no line number or names no file of the directory: %s", clip(err.Error(), 300))
+			}
 		}
 	})
 	if pi != nil {
@@ -559,7 +569,7 @@ func c08Tree(c *harness.Check, cs parseCase, _ bool) string {
 
 func TestC08_Trees(t *testing.T) {
 	c := harness.New(t, "C08", "trees",
-		"a sample of sources (generated valid templates, their prefixes inside constructs, lexeme soups) written as the only page (a regular file or a symbolic link to one), as the layout of a page and as a component of a page in a template directory (alone or between sound files that sort before and after it; debug mode on or off; no, an existing or a missing custom error page; extensions .tw, .tw.html, .TW, .Tpl, .t-w, .x.Y.z) and loaded with NewTemplate: returns (template, nil) or (nil, error), never panics or hangs; prefixes inside constructs must fail the load. Non-trivial: contains an opener. Distinct by hash of role + source.")
+		"a sample of sources (generated valid templates, their prefixes inside constructs, lexeme soups) written as the only page (a regular file or a symbolic link to one), as the layout of a page and as a component of a page in a template directory (alone or between sound files that sort before and after it; debug mode on or off; no, an existing or a missing custom error page; extensions .tw, .tw.html, .TW, .Tpl, .t-w, .x.Y.z) and loaded with NewTemplate (the page at the top of the directory or in a sub-directory whose name holds percent signs, a blank or a non-ASCII letter): returns (template, nil) or (nil, error) - an error that carries a line number and a path inside the directory -, never panics or hangs; prefixes inside constructs must fail the load. Non-trivial: contains an opener. Distinct by hash of role + source.")
 	defer c.Finish()
 	alpha := c08Alphabet()
 	runRapid(t, c, 1500, 18000, func(rt *rapid.T) {
@@ -586,6 +596,7 @@ func TestC08_Trees(t *testing.T) {
 			return
 		}
 		cs.As = rapid.SampledFrom([]string{"page", "layout", "component", "symlinked-page"}).Draw(rt, "as")
+		cs.Sub = rapid.SampledFrom([]string{"", "", "sub/", "50%off/", "my%20t/%d/", "sp ace/", "caf\u00e9/"}).Draw(rt, "sub")
 		cs.Debug = rapid.IntRange(0, 2).Draw(rt, "debug") == 0
 		cs.ErrorPage = rapid.SampledFrom([]string{"", "", "zebra", "nosuch"}).Draw(rt, "errorPage")
 		cs.Siblings = cs.ErrorPage == "zebra" || rapid.Bool().Draw(rt, "siblings")
